@@ -47,7 +47,7 @@ func TestDbg(t *testing.T) {
 						y++
 					}
 				}
-				verify(d, g, tb, pn, reporter{fail: func(c, det string) { fmt.Println("   FAIL", c, ":", det) }, count: func(string, int64) {}})
+				verify(d, g, tb, pn, nil, reporter{fail: func(c, det string) { fmt.Println("   FAIL", c, ":", det) }, count: func(string, int64) {}})
 			}
 		}()
 	}
